@@ -18,6 +18,25 @@ def main():
     buf = io.StringIO()
     with contextlib.redirect_stdout(buf):
         out = mod.run(tier, seed, extra)
+        # every recorded known finding must still reproduce from its committed witness (else the entry is stale)
+        from harness.common import Collector
+
+        kf = json.load(open(os.path.join(ROOT, "known_findings.json")))
+        stale, reproduced = [], []
+        for k in kf:
+            if k.get("property") != pid or k.get("status") != "known" or not k.get("witness") or not hasattr(mod, "replay"):
+                continue
+            c2 = Collector(pid, [k["id"]])
+            try:
+                mod.replay(c2, k["witness"], None)
+            except Exception as exc:  # noqa: BLE001
+                c2.failures.append({"check": "witness-replay-crash", "msg": repr(exc)})
+            (reproduced if c2.failures else stale).append(k["id"])
+        out["stale_known"] = sorted(set(out.get("stale_known", [])) | set(stale))
+        out["known_reproduced"] = reproduced
+        for kid in reproduced:
+            if not any(f.get("known") == kid for f in out["failures"]):
+                out["failures"].append({"check": "known-witness", "case": "committed witness", "msg": "reproduces", "known": kid, "function": None, "oid": None})
     print(json.dumps(out, default=str))
 
 
